@@ -75,8 +75,12 @@ def leaves(prefix, ft):
   return out
 
 class Gen:
-  def __init__(s, rng, name, depth=0, size='medium', uid='', focus=None):
+  def __init__(s, rng, name, depth=0, size='medium', uid='', focus=None, ys_safe=False):
     s.rng, s.name, s.depth, s.size, s.uid = rng, name, depth, size, uid
+    # ys_safe: keep every struct-typed wire / output at ONE granularity (written and read as a whole, outputs only of
+    # structs with plain Bits fields): the Yosys backend keeps `x` and `x__field` as unrelated variables otherwise
+    # (reported separately by directed designs), and that would hide everything else it does
+    s.ys_safe = ys_safe
     s.focus = focus
     # known-defect shapes are generated only in a fraction of the designs, so that the other designs can expose
     # NEW kinds of disagreement (each shape also has directed minimal designs, see directed_designs below)
@@ -259,7 +263,12 @@ class Gen:
       return f'concat( {N(a)}, {E(w - a)[0]} )', False
     if r < 0.9 and w >= 2:
       k = rng.randrange(1, w); f = rng.choice(['zext', 'sext']); s.feat(f)
-      if f == 'sext' and not s.allow_sext_expr: return f'sext( {s.sig_leaf(k)}, {w} )', False
+      if f == 'sext' and not s.allow_sext_expr:
+        for _ in range(6):
+          a = s.sig_leaf(k)
+          if not (k > 1 and re.search(r'\[\d+\]$', a)): break      # an indexed multi-bit element: known defect shape
+        else: return f'zext( {a}, {w} )', False
+        return f'sext( {a}, {w} )', False
       if f == 'sext': s.feat('sext-of-expr')
       return f'{f}( {N(k)}, {w} )', False
     if r < 0.96 and w < 128:
@@ -277,8 +286,9 @@ class Gen:
     n = s.name_sig({'InPort': 'si', 'OutPort': 'so', 'Wire': 'sw'}[kind])
     s.lines.append(f's.{n} = {kind}( {T.name} )')
     return f's.{n}'
-  def add_struct_avail(s, text, T):
+  def add_struct_avail(s, text, T, leaves_ok=True):
     s.struct_sigs.append((text, T))
+    if not leaves_ok: return
     # (a connect() whose source is a field of a struct written as a whole by a block makes pymtl3 raise NoWriterError,
     #  so struct leaves are never used as the source of a net)
     for t, w in leaves(text, ('struct', T)): s.avail.append(Sig(t, w, net_ok=False))
@@ -381,7 +391,8 @@ class Gen:
     for T in s.structs:
       flat = all(ft[0] == 'bits' for _, ft in T.fields)
       if rng.random() < 0.3 and (flat or any(TT is T for _, TT in s.struct_sigs)):
-        t = s.decl_struct('Wire' if rng.random() < 0.6 else 'OutPort', T); sregs.append((t, T)); s.add_struct_avail(t, T); s.feat('struct-reg')
+        kind = 'Wire' if (rng.random() < 0.6 or (s.ys_safe and not flat)) else 'OutPort'
+        t = s.decl_struct(kind, T); sregs.append((t, T)); s.add_struct_avail(t, T, leaves_ok=not (s.ys_safe and kind == 'Wire')); s.feat('struct-reg')
     listreg = None
     if rng.random() < 0.3:
       n = rng.choice([2, 3, 4]); w = rng.choice([1, 4, 8, 32]); nm = s.name_sig('rl')
@@ -480,7 +491,7 @@ class Gen:
         else: s.lines.append(f's.{cn}[{i}].in_ //= s.{cn}[{i-1}].out'); s.feat('child-chain')
       s.avail.append(Sig(f's.{cn}[{n-1}].out', w))
     elif s.depth < 2:
-      g = Gen(random.Random(rng.randrange(1 << 30)), f'{s.name}_C{len(s.children)}', depth=s.depth + 1, size='small', uid=f'{s.uid}c{len(s.children)}')
+      g = Gen(random.Random(rng.randrange(1 << 30)), f'{s.name}_C{len(s.children)}', depth=s.depth + 1, size='small', uid=f'{s.uid}c{len(s.children)}', ys_safe=s.ys_safe)
       g.build(n_in=rng.randrange(1, 3))
       s.children.append(g); s.feat('child:generated')
       s.lines.append(f's.{cn} = {g.name}()')
@@ -575,15 +586,24 @@ class Gen:
   def add_struct_unit(s):
     rng = s.rng
     T = rng.choice(s.structs)
-    t = s.decl_struct('OutPort' if rng.random() < 0.6 else 'Wire', T)
-    if rng.random() < 0.25:
-      same = [x for x, TT in s.struct_sigs if TT is T]
-      if same:
-        s.lines.append(f'{t} //= {rng.choice(same)}'); s.feat('connect-struct'); s.add_struct_avail(t, T); return
+    flat = all(ft[0] == 'bits' for _, ft in T.fields)
+    kind = 'OutPort' if rng.random() < 0.6 else 'Wire'
+    if s.ys_safe and not flat: kind = 'Wire'
+    same = [x for x, TT in s.struct_sigs if TT is T]
+    if s.ys_safe and not (flat or same): return
+    t = s.decl_struct(kind, T)
+    leaves_ok = not (s.ys_safe and kind == 'Wire')
+    if rng.random() < 0.25 and same and not s.ys_safe:
+      s.lines.append(f'{t} //= {rng.choice(same)}'); s.feat('connect-struct'); s.add_struct_avail(t, T); return
     s._tmp_added = []
-    body = s.write_struct(t, T, '@=')
+    body = s.write_struct(t, T, '<<=' if False else '@=') if not s.ys_safe else s.write_struct_whole(t, T, same, flat)
     s.comb_block(s.finish_tmp(body))
-    s.add_struct_avail(t, T)
+    s.add_struct_avail(t, T, leaves_ok)
+
+  def write_struct_whole(s, target, T, same, flat):
+    if same and (s.rng.random() < 0.5 or not flat): s.feat('struct-copy'); return [f'{target} @= {s.rng.choice(same)}']
+    s.feat('struct-inst')
+    return [f'{target} @= {T.name}( ' + ', '.join(s.expr(ft[1]) for _, ft in T.fields) + ' )']
 
   # ------------------------------------------------------------------ source
   def class_source(s):
@@ -636,6 +656,24 @@ class {cls}( Component ):
     out.append((cls, src, op))
   return out
 
+DPT = '''from pymtl3 import *
+@bitstruct
+class DPt:
+  a: Bits8
+  b: Bits4
+@bitstruct
+class DNest:
+  p: DPt
+  c: Bits4
+@bitstruct
+class DVec:
+  v: [ Bits4, Bits4, Bits4 ]
+  t: Bits2
+class DIfc( Interface ):
+  def construct( s ):
+    s.msg = InPort( 8 ); s.val = InPort()
+'''
+
 def directed_other_designs():
   """(class name, source, tag): minimal designs for the other defect shapes found by the random designs, plus controls"""
   def mk(cls, decls, stmt):
@@ -660,5 +698,17 @@ class {cls}( Component ):
     ('D_sext_slice',  mk('D_sext_slice',  io + 's.o = OutPort( 8 )', 's.o @= sext( s.w[2:6], 8 )'), 'control'),
     ('D_sext_concat', mk('D_sext_concat', io + 's.o = OutPort( 8 )', 's.o @= sext( concat( s.c, s.a[0:3] ), 8 )'), 'control'),
     ('D_sext_inv',    mk('D_sext_inv',    io + 's.o = OutPort( 8 )', 's.o @= sext( ~s.a, 8 )'), 'control'),
+    ('D_sext_elem',   mk('D_sext_elem',   's.in_ = [ InPort( 4 ) for _ in range(2) ]; s.o = OutPort( 8 )', 's.o @= sext( s.in_[1], 8 )'), 'sext-of-element'),
+    ('D_shift_ovf',   mk('D_shift_ovf',   's.n = 2; s.w = InPort( 8 ); s.o = OutPort( 8 )'.replace('s.n = 2; ', ''), 's.o @= s.w >> (K_OVF + 2)').replace('from pymtl3 import *', 'from pymtl3 import *\nK_OVF = 2'), 'const-unfolded-overflow'),
+    # struct-typed signals accessed at two granularities (the Yosys backend keeps x and x__field as separate variables)
+    ('D_st_wire_wf',  mk('D_st_wire_wf', 's.i = InPort( DPt ); s.w = Wire( DPt ); s.o = OutPort( 8 )', 's.w @= s.i\n      s.o @= s.w.a').replace('from pymtl3 import *', DPT), 'struct:wire-written-whole-read-by-field'),
+    ('D_st_wire_fw',  mk('D_st_wire_fw', 's.x = InPort( 8 ); s.y = InPort( 4 ); s.w = Wire( DPt ); s.o = OutPort( 12 )', 's.w.a @= s.x\n      s.w.b @= s.y\n      s.o @= s.w').replace('from pymtl3 import *', DPT), 'struct:wire-written-by-field-read-whole'),
+    ('D_st_out_f',    mk('D_st_out_f', 's.x = InPort( 8 ); s.y = InPort( 4 ); s.o = OutPort( DPt )', 's.o.a @= s.x\n      s.o.b @= s.y').replace('from pymtl3 import *', DPT), 'struct:outport-written-by-field'),
+    ('D_st_out_w',    mk('D_st_out_w', 's.i = InPort( DPt ); s.o = OutPort( DPt )', 's.o @= s.i').replace('from pymtl3 import *', DPT), 'control'),
+    ('D_st_nest_out', mk('D_st_nest_out', 's.i = InPort( DNest ); s.o = OutPort( DNest )', 's.o @= s.i').replace('from pymtl3 import *', DPT), 'struct:nested-outport'),
+    ('D_st_list_out', mk('D_st_list_out', 's.i = InPort( DVec ); s.o = OutPort( DVec )', 's.o @= s.i').replace('from pymtl3 import *', DPT), 'struct:list-field-outport'),
+    ('D_st_in_field', mk('D_st_in_field', 's.i = InPort( DNest ); s.o = OutPort( 12 ); s.o2 = OutPort( 8 )', 's.o @= s.i.p\n      s.o2 @= s.i.p.a').replace('from pymtl3 import *', DPT), 'control'),
+    ('D_trunc_field', mk('D_trunc_field', 's.i = InPort( DPt ); s.o = OutPort( 4 )', 's.o @= trunc( s.i.a, 4 )').replace('from pymtl3 import *', DPT), 'trunc-of-struct-field'),
+    ('D_trunc_ifc',   mk('D_trunc_ifc', 's.recv = DIfc(); s.o = OutPort( 4 )', 's.o @= trunc( s.recv.msg, 4 )').replace('from pymtl3 import *', DPT), 'trunc-of-interface-member'),
     ('D_red_sig',     mk('D_red_sig',     io + 's.o = OutPort( 1 )', 's.o @= reduce_xor( s.w ) & reduce_or( s.a ) | reduce_and( s.b )'), 'control'),
   ]
